@@ -83,6 +83,7 @@ namespace sim
         bool obs_stack = false;
         bool obs_visits = true;
         bool obs_slices = true;
+        bool obs_sites = false;
         std::set<std::string> obs_ops; // operator names whose execution is recorded with the resulting top of stack
 
         std::vector<Fault> faults;
